@@ -71,6 +71,9 @@ def _gen_grid(rng):
     if rng.random() < 0.3:
         g["shape"] = rng.randint(2, 6)
         g["radius"] = float(g["shape"])
+    if rng.random() < 0.3:
+        # annulus / spherical shell: the grid has an inner hole
+        g["r_inner"] = scenes.q(rng.uniform(0.25, 0.6) * g["radius"])
     return g
 
 
@@ -165,6 +168,9 @@ def _gen_frame(rng, grid):
         f["invert"] = True
     if rng.random() < 0.15:
         f["affine"] = [rng.choice([0.0, -1.0, 10.0]), rng.choice([1.0, 1e-3, 100.0, -1.0])]
+    if rng.random() < 0.14:
+        # images and masks: single-precision, integer and boolean fields are finite fields too
+        f["dtype"] = rng.choice(["float32", "bool", "bool", "int64", "uint8", "int8"])
     return f
 
 
@@ -180,9 +186,21 @@ def _gen_options(rng, grid):
     o["modes"] = modes
     o["refine"] = rng.random() < 0.45
     if o["refine"]:
-        ra = copy.deepcopy(rng.choice([None, {}, {"vmin": None, "vmax": None}, {"adjust_values": True},
-                                       {"tolerance": 1e-2}, {"vmin": None}]))
-        ra = dict(ra or {})
+        if rng.random() < 0.5:
+            ra = copy.deepcopy(rng.choice([None, {}, {"vmin": None, "vmax": None}, {"adjust_values": True},
+                                           {"tolerance": 1e-2}, {"vmin": None}]))
+            ra = dict(ra or {})
+        else:
+            # every documented refinement option drawn independently of the others
+            ra = {}
+            if rng.random() < 0.4:
+                ra["vmin"] = rng.choice([None, None, 0.0])
+            if rng.random() < 0.4:
+                ra["vmax"] = rng.choice([None, None, 1.0])
+            if rng.random() < 0.4:
+                ra["adjust_values"] = rng.choice([True, True, False])
+            if rng.random() < 0.25:
+                ra["tolerance"] = rng.choice([1e-3, 1e-2])
         ra.setdefault("least_squares_params", {"max_nfev": 8})
         o["refine_args"] = ra
         # refinement may be handed to worker processes (simulated pool): the number of workers is
